@@ -7,7 +7,7 @@ From FlacWriters Require Import Params_proofs.
 From FlacReaders Require Readers Spec Ser RNum Seek.
 From FlacWriters Require Import Lists_proofs Writers_proofs.
 From FlacWriters Require Import Bytes_proofs Cross_proofs.
-From FlacE2E Require Import Bridge E2E SampleE2E Success ChannelE2E ByteE2E ByteSuccess ChannelSuccess ReadBridge ReadersE2E InterruptedE2E SeekE2E SeekReadE2E Transfer DecodedFile DamagedFile InterruptedBytes.
+From FlacE2E Require Import Bridge E2E SampleE2E Success ChannelE2E ByteE2E ByteSuccess ChannelSuccess ReadBridge ReadersE2E InterruptedE2E SeekE2E SeekReadE2E Transfer DecodedFile DamagedFile InterruptedBytes InterruptedChannels.
 Import ListNotations.
 Open Scope N_scope.
 
@@ -588,6 +588,29 @@ Theorem C14_byte_writer_interrupted : forall o L p en rate bps wo ch tb wb chunk
       end.
 Proof. exact byte_writer_interrupted. Qed.
 
+(* ... and for FlacChannelWriter (any well-formed write arguments), through Cross_writes.channel_write_is_sample_write *)
+Theorem C14_channel_writer_interrupted : forall o L p rate bps wo ch tc wc chunks wc',
+  options_wf wo ->
+  channel_new p [] wo rate bps ch tc = Ok wc ->
+  fold_res (channel_write (encB o L rate bps) p) wc chunks = Ok wc' ->
+  Forall (chunk_ok (N.to_nat ch)) chunks ->
+  let pcm := concat (multizip (cconcat (N.to_nat ch) chunks)) in
+  forallb (FlacCodec.Wf.fits bps) pcm = true ->
+  N.of_nat (length pcm) < 2 ^ 36 ->
+  let si := conv_si (e_si (cw_enc wc)) in
+  let K := N.to_nat (ch * o_block_size wo) in
+  exists bl,
+    concat (map FlacCodec.Stream.interleave_frame bl) = firstn (K * (length pcm / K)) pcm /\
+    forall b gb m,
+      FlacCodec.Enc_proofs.block_ok si bps b -> FlacCodec.Enc.block_len b = o_block_size wo ->
+      FlacCodec.Enc.enc_frame_bytes o L rate bps (N.of_nat (length bl)) b = Some gb -> (m < length gb)%nat ->
+      match si_total (e_si (cw_enc wc)) with Some t => FlacCodec.Enc_proofs.blocks_samples bl + FlacCodec.Enc.block_len b <= t | None => True end ->
+      match FlacCodec.Stream.dec_stream (stream (cw_enc wc') ++ firstn m gb) with
+      | Some (si', out, en') => si' = si /\ out = map FlacCodec.Stream.interleave_frame bl /\ FlacCodec.Progress.is_end_panic en' = false
+      | None => False
+      end.
+Proof. exact channel_writer_interrupted. Qed.
+
 (* C05 + C07 for damaged files — EVERY byte string on which the stream decoder model decodes some frames and then fails
    (any error): over the abstract stream "the blocks decoded so far, then a frame that fails" (whatever the failed decode
    left in the frame buffer, whatever follows), what ANY seek-free history of the sample reader model hands out or shows
@@ -708,6 +731,7 @@ Print Assumptions C01_sample_writer_lossless.
 Print Assumptions C01_written_metadata_is_read.
 Print Assumptions C01_end_to_end_samples.
 Print Assumptions C14_byte_writer_interrupted.
+Print Assumptions C14_channel_writer_interrupted.
 Print Assumptions C05_damaged_file_is_read.
 Print Assumptions C05_damaged_file_is_read_bytes_channels.
 Print Assumptions C01_end_to_end_encoder.
